@@ -1235,6 +1235,16 @@ static void lin_algebra(const LinCase<TR::N> &c, pbt::Ctx &ctx)
     LS t = A;
     t *= B;
     CHKM(ST(nm + ".A*=B"), toRef(t), ab, tol, 8 * eps);
+    {
+      // both operands are the same object: B *= B must be B*B computed from the value before the call
+      RM<N> bb = rmul(b, b), tbb = rmul(rabs(b), rabs(b));
+      for (int i = 0; i < N; ++i)
+        for (int j = 0; j < N; ++j)
+          tbb.m[i][j] += 1e-300L;
+      LS u = B;
+      u *= u;
+      CHKM(ST(nm + ".B*=B(same object)"), toRef(u), bb, tbb, 8 * eps);
+    }
     RV<N> sv = rmulv(rabs(a), rabs(x));
     for (int i = 0; i < N; ++i)
       sv[i] += 1e-300L;
@@ -1803,6 +1813,12 @@ static void aff_algebra(const AffCase<TR::N> &c, pbt::Ctx &ctx)
     t *= B;
     CHKM(ST(nm + ".(A*=B).l"), toRef(t.l), rmul(a, b), tl, 8 * eps);
     CHKV(ST(nm + ".(A*=B).p"), toRef(t.p), vadd(rmulv(a, pb), pa), tp, 8 * eps);
+    {
+      AS u = B;
+      u *= u;  // same object on both sides
+      const AS BB = B * B;
+      PBT_ASSERT_MSG(u.l == BB.l && u.p == BB.p, nm << ": B *= B (same object) differs from B * B");
+    }
     // (A*B)(x) = A(B(x)) with the operators (stays in T for every instantiation, also in 2D)
     RV<N> want = vadd(rmulv(a, vadd(rmulv(b, x), pb)), pa);
     RV<N> scale = vfloor(vadd(vadd(rmulv(aa, rmulv(rabs(b), rabs(x))), rmulv(aa, apb)), apa));
@@ -2301,6 +2317,22 @@ static void quat_algebra(const QAlgCase &c, pbt::Ctx &ctx)
     t = A;
     t *= C;
     PBT_ASSERT_MSG(t == A * C, nm << " *= scalar");
+    // the right-hand side refers to the quaternion itself / to one of its own components
+    t = A;
+    t += t;
+    PBT_ASSERT_MSG(t == A + A, nm << " q += q (same object)");
+    t = A;
+    t *= t;
+    PBT_ASSERT_MSG(t == A * A, nm << " q *= q (same object)");
+    t = A;
+    t *= t.i;
+    PBT_ASSERT_MSG(t == A * A.i, nm << " q *= q.i (own component)");
+    t = A;
+    t += t.r;
+    PBT_ASSERT_MSG(t == A + A.r, nm << " q += q.r (own component)");
+    t = A;
+    t -= t.r;
+    PBT_ASSERT_MSG(t == A - A.r, nm << " q -= q.r (own component)");
     // scalar of the other floating type (only float*quatd / quatd*float compile): result in double, exact product
     if (std::is_same<S, double>::value) {
       float cf = (float)C;
